@@ -20,6 +20,8 @@ pub mod ss {
             (BuildState::Unknown, BuildState::Want) => true,
             (BuildState::Unknown, BuildState::Ready) => true,
             (BuildState::Want, BuildState::Ready) => true,
+            // re-entrant want_build through a validation edge sets an already-Want build to Want again (identity)
+            (BuildState::Want, BuildState::Want) => true,
             (BuildState::Ready, BuildState::Queued) => true,
             (BuildState::Ready, BuildState::Done) => true,
             (BuildState::Queued, BuildState::Running) => true,
@@ -450,5 +452,105 @@ pub mod ss {
             if b != i { assert(st1[b] == st0[b]); }
         }
     }
+
+    // --- want_file / want_build vocabulary (C01 readiness, C06 termination, C18 closure)
+    pub open spec fn stack_ok(g: Graph, s: Seq<FileId>) -> bool { gs::ids_ok(g, s) && gs::no_dup(s) }
+    pub open spec fn unk() -> spec_fn(int, BuildState) -> bool { |i: int, s: BuildState| s == BuildState::Unknown }
+    /// what a want_* call may change: only Unknown builds move, and only to Want or Ready
+    pub open spec fn mono(b0: BuildStates, b1: BuildStates) -> bool {
+        &&& st_of(b1).len() == st_of(b0).len()
+        &&& forall|b: int| 0 <= b < st_of(b0).len() ==> (#[trigger] st_of(b1)[b] == st_of(b0)[b]
+                || (st_of(b0)[b] == BuildState::Unknown && (st_of(b1)[b] == BuildState::Want || st_of(b1)[b] == BuildState::Ready))
+                || (st_of(b0)[b] == BuildState::Want && st_of(b1)[b] == BuildState::Want))
+        &&& pools_of(b1).len() == pools_of(b0).len()
+        &&& forall|j: int| 0 <= j < pools_of(b0).len() ==> pool_same(#[trigger] pools_of(b1)[j], pools_of(b0)[j])
+    }
+    pub open spec fn same_bs(b0: BuildStates, b1: BuildStates) -> bool {
+        st_of(b1) == st_of(b0) && b1.ready@ == b0.ready@ && b1.counts.0@ == b0.counts.0@ && b1.total_pending == b0.total_pending
+        && pools_of(b1).len() == pools_of(b0).len()
+        && forall|j: int| 0 <= j < pools_of(b0).len() ==> pool_same(#[trigger] pools_of(b1)[j], pools_of(b0)[j])
+    }
+    pub proof fn lemma_mono_trans(a: BuildStates, b: BuildStates, c: BuildStates)
+        requires mono(a, b), mono(b, c)
+        ensures mono(a, c)
+    {
+        assert forall|j: int| 0 <= j < pools_of(a).len() implies pool_same(#[trigger] pools_of(c)[j], pools_of(a)[j]) by {
+            assert(pool_same(pools_of(b)[j], pools_of(a)[j]));
+        }
+    }
+    pub proof fn lemma_mono_unk(b0: BuildStates, b1: BuildStates)
+        requires mono(b0, b1)
+        ensures count(st_of(b1), unk()) <= count(st_of(b0), unk())
+    {
+        lemma_count_mono(st_of(b0), st_of(b1));
+    }
+    pub proof fn lemma_count_mono(s0: Seq<BuildState>, s1: Seq<BuildState>)
+        requires s0.len() == s1.len(), forall|b: int| 0 <= b < s0.len() ==> (s1[b] == BuildState::Unknown ==> s0[b] == BuildState::Unknown)
+        ensures count(s1, unk()) <= count(s0, unk())
+        decreases s0.len()
+    {
+        if s0.len() > 0 { lemma_count_mono(s0.drop_last(), s1.drop_last()); }
+    }
+    /// pigeonhole: a duplicate-free list of file ids below n has at most n entries
+    pub proof fn lemma_pigeon(s: Seq<FileId>, n: int)
+        requires n >= 0, gs::no_dup(s), forall|k: int| 0 <= k < s.len() ==> ix(#[trigger] s[k]) < n
+        ensures s.len() <= n
+        decreases n
+    {
+        if s.len() > 0 {
+            if n == 0 { assert(ix(s[0]) < n); }
+            else if exists|k: int| 0 <= k < s.len() && ix(#[trigger] s[k]) == n - 1 {
+                let k = choose|k: int| 0 <= k < s.len() && ix(#[trigger] s[k]) == n - 1;
+                let t = s.remove(k);
+                assert forall|a: int, b: int| 0 <= a < b < t.len() implies t[a] != t[b] by {
+                    let a2 = if a < k { a } else { a + 1 };
+                    let b2 = if b < k { b } else { b + 1 };
+                    assert(t[a] == s[a2] && t[b] == s[b2]);
+                }
+                assert forall|j: int| 0 <= j < t.len() implies ix(#[trigger] t[j]) < n - 1 by {
+                    let j2 = if j < k { j } else { j + 1 };
+                    assert(t[j] == s[j2]);
+                    assert(s[j2] != s[k]);
+                    assert(ix(s[j2]) < n);
+                    if ix(s[j2]) == n - 1 { assert(s[j2].0 == s[k].0); }
+                }
+                lemma_pigeon(t, n - 1);
+                assert(t.len() == s.len() - 1);
+            } else {
+                assert forall|j: int| 0 <= j < s.len() implies ix(#[trigger] s[j]) < n - 1 by { assert(ix(s[j]) < n); }
+                lemma_pigeon(s, n - 1);
+            }
+        }
+    }
+
+    pub proof fn lemma_unk_strict(b0: BuildStates, b1: BuildStates, i: int)
+        requires mono(b0, b1), 0 <= i < st_of(b0).len(), st_of(b0)[i] == BuildState::Unknown, st_of(b1)[i] != BuildState::Unknown
+        ensures count(st_of(b1), unk()) < count(st_of(b0), unk())
+    {
+        lemma_count_strict(st_of(b0), st_of(b1), i);
+    }
+    pub proof fn lemma_count_strict(s0: Seq<BuildState>, s1: Seq<BuildState>, i: int)
+        requires s0.len() == s1.len(), 0 <= i < s0.len(), s0[i] == BuildState::Unknown, s1[i] != BuildState::Unknown,
+            forall|b: int| 0 <= b < s0.len() ==> (s1[b] == BuildState::Unknown ==> s0[b] == BuildState::Unknown)
+        ensures count(s1, unk()) < count(s0, unk())
+        decreases s0.len()
+    {
+        if i == s0.len() - 1 { lemma_count_mono(s0.drop_last(), s1.drop_last()); }
+        else { lemma_count_strict(s0.drop_last(), s1.drop_last(), i); }
+    }
+    pub proof fn lemma_same_bs_mono(b0: BuildStates, b1: BuildStates)
+        requires same_bs(b0, b1)
+        ensures mono(b0, b1)
+    {}
+    /// bs_inv only looks at views, so it transfers across same_bs
+    pub proof fn lemma_not_done_stable(g: Graph, b0: BuildStates, b1: BuildStates, f: FileId)
+        requires mono(b0, b1), gs::fid_ok(g, f), !producer_done(g, st_of(b0), f),
+            gs::wf_graph(g), st_of(b0).len() == gs::builds(g).len()
+        ensures !producer_done(g, st_of(b1), f)
+    {}
+    pub proof fn lemma_done_stable(g: Graph, b0: BuildStates, b1: BuildStates, f: FileId)
+        requires mono(b0, b1), producer_done(g, st_of(b0), f)
+        ensures producer_done(g, st_of(b1), f)
+    {}
     }
 }
